@@ -119,3 +119,136 @@ package subscriptions
 //@   invariant this != nil && this.#tree != nil && st_wf(this.#tree)
 //@   invariant forall r *Node :: {#hits[r]} #hits[r] >= old(#hits)[r]
 //@   invariant forall r *Node :: {#hits[r]} #hits[r] > old(#hits)[r] ==> st_in(this.#tree, r) && msub(this.#key, r.#key, string(old(topic)), false)
+
+// ---- iteration (C19) ----------------------------------------------------------------------------
+// kpre(a, b): the key a is a prefix of the key b (b lies in the subtree of a). Keys are free terms over kroot/kjoin, so two
+// different children of one node have disjoint subtrees (kpre_split; by induction on b, not mechanised -- listed as assumed).
+//@ fun kpre(a Key, b Key) bool
+//@ axiom kpre_refl: forall a Key :: {kpre(a, a)} kpre(a, a)
+//@ axiom kpre_join: forall a Key, b Key, s string :: {kpre(a, kjoin(b, s))} kpre(a, kjoin(b, s)) <==> (a == kjoin(b, s) || kpre(a, b))
+//@ axiom kpre_root: forall a Key :: {kpre(a, kroot())} kpre(a, kroot()) ==> a == kroot()
+//@ axiom kpre_split: forall k Key, s string, t string, x Key :: {kpre(kjoin(k, s), x), kpre(kjoin(k, t), x)} kpre(kjoin(k, s), x) && kpre(kjoin(k, t), x) ==> s == t
+//@ axiom kpre_strict: forall k Key, s string :: {kjoin(k, s)} !kpre(kjoin(k, s), k)
+//@ axiom kpre_down: forall k Key, s string, x Key :: {kpre(kjoin(k, s), x)} kpre(kjoin(k, s), x) ==> kpre(k, x)
+
+//@ ghost-after (*Node).iterate callparam iterator
+//@   set #hits := update(#hits, arg0_owner, #hits[arg0_owner] + 1)
+//@ assume-call (*Node).iterate.iterator(b []byte)
+//@   modifies #iterCalls
+//@   ensures #iterCalls == old(#iterCalls) + 1
+//@ ghost-after (*Node).iterate call (*Node).iterate
+//@   set #walked := update(#walked, n, #walked[n] + 1)
+
+// iterate reports exactly the non-empty entries of the subtree, each at most once (soundness and the bound, for the whole
+// subtree); completeness one level at a time: the node itself if it holds data, and every child is iterated.
+//@ func (*Node).iterate(iterator NodeIterator)
+//@   requires this != nil && this.#tree != nil && st_wf(this.#tree)
+//@   ensures forall r *Node :: {#hits[r]} #hits[r] >= old(#hits)[r] && #hits[r] <= old(#hits)[r] + 1
+//@   ensures forall r *Node :: {#hits[r]} #hits[r] > old(#hits)[r] ==> st_in(this.#tree, r) && len(r.Data) > 0 && kpre(this.#key, r.#key)
+//@   ensures len(this.Data) > 0 ==> #hits[this] == old(#hits)[this] + 1
+//@   ensures forall k string :: {this.Children[k]} k in this.Children ==> #walked[this.Children[k]] >= old(#walked)[this.Children[k]] + 1
+//@   ensures forall r *Node :: {#walked[r]} #walked[r] >= old(#walked)[r]
+//@   modifies #hits, #iterCalls, #walked
+//@ loop (*Node).iterate#1
+//@   invariant this != nil && this.#tree != nil && st_wf(this.#tree)
+//@   invariant forall r *Node :: {#walked[r]} #walked[r] >= old(#walked)[r]
+//@   invariant forall kk string :: {seen(kk)} seen(kk) ==> #walked[this.Children[kk]] >= old(#walked)[this.Children[kk]] + 1
+//@   invariant forall r *Node :: {#hits[r]} #hits[r] >= old(#hits)[r] && #hits[r] <= old(#hits)[r] + 1
+//@   invariant forall r *Node :: {#hits[r]} #hits[r] > old(#hits)[r] ==> st_in(this.#tree, r) && len(r.Data) > 0 && kpre(this.#key, r.#key)
+//@   invariant forall r *Node :: {#hits[r]} #hits[r] > old(#hits)[r] && r != this ==> (exists kk string :: {seen(kk)} seen(kk) && kk in this.Children && kpre(kjoin(this.#key, kk), r.#key))
+//@   invariant len(this.Data) > 0 ==> #hits[this] == old(#hits)[this] + 1
+//@   invariant len(this.Data) == 0 ==> #hits[this] == old(#hits)[this]
+
+// ---- the tree object: the invariant of its root under the lock, and dump / load (C19) ---------------------------
+//@ pred tree_inv(t *tree) := t != nil && t.root != nil && st_wf(t.root)
+
+// A-PROTOBUF: the generated protobuf code round-trips a node tree. dv(bytes, K) is the data a dump holds for the key K.
+// Marshal writes the data of every node under its key (and nothing for absent keys); Unmarshal builds a fresh, well-formed
+// tree of new nodes (maps may be nil for nodes without children) holding exactly what the dump holds. Both are assumptions
+// about generated code outside the verifier's reach; the plumbing in Dump and Load is verified against them.
+//@ fun dv(dump string, k Key) string
+//@ trusted func github.com/gogo/protobuf/proto.Marshal(pb proto.Message) (out []byte, err error)
+//@   ensures err == nil && typeis(pb, *Node) ==> fresh(out)
+//@         && (forall r *Node :: {r.#tree} st_in(unbox(pb, *Node), r) ==> dv(string(out), r.#key) == string(r.Data))
+//@         && (forall k Key :: {dv(string(out), k)} (forall r *Node :: {r.#tree} st_in(unbox(pb, *Node), r) ==> r.#key != k) ==> dv(string(out), k) == "")
+//@   modifies newrows(bytes)
+//@ trusted func github.com/gogo/protobuf/proto.Unmarshal(buf []byte, pb proto.Message) (err error)
+//@   requires typeis(pb, *Node) ==> unbox(pb, *Node) != nil
+//@   ensures err == nil && typeis(pb, *Node) ==> st_wf(unbox(pb, *Node))
+//@         && (forall r *Node :: {r.#tree} st_in(unbox(pb, *Node), r) && r != unbox(pb, *Node) ==> fresh(r))
+//@         && (forall r *Node :: {r.#tree} st_in(unbox(pb, *Node), r) ==> dv(string(buf), r.#key) == string(r.Data))
+//@         && (forall k Key :: {dv(string(buf), k)} (forall r *Node :: {r.#tree} st_in(unbox(pb, *Node), r) ==> r.#key != k) ==> dv(string(buf), k) == "")
+//@   ensures forall r *Node :: {r.#tree} old(allocated(r)) && r != unbox(pb, *Node) ==> r.#tree == old(r.#tree) && r.Data == old(r.Data) && r.Children == old(r.Children)
+//@   ensures err != nil && typeis(pb, *Node) ==> (forall r *Node :: {r.#tree} !old(allocated(r)) || r == unbox(pb, *Node) ==> r.#tree == old(r.#tree))
+//@   ensures typeis(pb, *Node) ==> st_wf0(nil)
+//@   modifies newobjs(unbox(pb, *Node)), newmaps(unbox(pb, *Node).Children), newrows(bytes)
+
+//@ func NewTree() (r Tree)
+//@   requires st_wf0(nil)
+//@   ensures typeis(r, *tree) && tree_inv(unbox(r, *tree)) && fresh(unbox(r, *tree))
+//@   ensures forall x *Node :: {x.#tree} st_in(unbox(r, *tree).root, x) ==> x == unbox(r, *tree).root
+//@   ensures len(unbox(r, *tree).root.Data) == 0
+
+//@ ghost-after NewTree call newNode
+//@   set result.#tree := result
+//@   set result.#key := kroot()
+//@   set result.#parent := nil
+//@   set result.#depth := 0
+
+// C19 at the interface: Upsert at pattern p touches exactly the entry with key kext(kroot, p)
+//@ func (*tree).Upsert(pattern []byte, f func([]byte) []byte) (err error)
+//@   requires tree_inv(t) && unlocked(t.mtx)
+//@   ensures tree_inv(t) && err == nil && t.root == old(t.root)
+//@   ensures #upsertCalls == old(#upsertCalls) + 1
+//@   ensures forall r *Node :: {r.#tree} old(st_in(t.root, r)) && r.#key != kext(kroot(), string(pattern), pattern == nil) ==> r.Data == old(r.Data)
+//@   ensures forall r *Node :: {r.#tree} old(st_in(t.root, r)) && !st_in(t.root, r) ==> len(r.Data) == 0
+//@   ensures forall r *Node :: {r.#tree} !old(st_in(t.root, r)) && st_in(t.root, r) ==> fresh(r) && (r.#key != kext(kroot(), string(pattern), pattern == nil) ==> len(r.Data) == 0)
+//@   ensures forall r *Node :: {r.#tree} st_in(t.root, r) && r.#key == kext(kroot(), string(pattern), pattern == nil) ==> r.Data == #upsertRes
+//@   ensures forall r *Node :: {r.#tree} old(st_in(t.root, r)) && r.#key == kext(kroot(), string(pattern), pattern == nil) ==> #upsertArg == old(r.Data)
+//@   ensures (forall r *Node :: {r.#tree} old(st_in(t.root, r)) ==> r.#key != kext(kroot(), string(pattern), pattern == nil)) ==> len(#upsertArg) == 0
+//@   ensures forall r *Node :: {r.#key} old(st_in(t.root, r)) ==> r.#key == old(r.#key)
+//@   modifies allfields(t.root), allmaps(t.root.Children), newrows(pattern), #upsertCalls, #upsertArg, #upsertRes, heap(K_sync_RWMutex)
+//@ assume-call (*tree).Upsert.f(b []byte) (r []byte)
+//@   modifies newrows(b), #upsertCalls, #upsertArg, #upsertRes
+//@   ensures #upsertCalls == old(#upsertCalls) + 1 && #upsertArg == b && #upsertRes == r
+
+// C01 at the interface: Walk reports exactly nodes whose key matches the topic (soundness), and the root-level completeness
+//@ func (*tree).Walk(topic []byte, iterator NodeIterator)
+//@   requires tree_inv(this) && unlocked(this.mtx)
+//@   ensures forall r *Node :: {#hits[r]} #hits[r] >= old(#hits)[r]
+//@   ensures forall r *Node :: {#hits[r]} #hits[r] > old(#hits)[r] ==> st_in(this.root, r) && msub(kroot(), r.#key, string(topic), topic == nil)
+//@   ensures #walked[this.root] >= old(#walked)[this.root] + 1
+//@   modifies #hits, #iterCalls, #walked, heap(K_sync_RWMutex)
+//@ assume-call (*tree).Walk.iterator(b []byte)
+//@   modifies #iterCalls
+//@   ensures #iterCalls == old(#iterCalls) + 1
+//@ ghost-after (*tree).Walk call (*Node).walk
+//@   set #walked := update(#walked, this.root, #walked[this.root] + 1)
+
+//@ func (*tree).Iterate(iterator NodeIterator)
+//@   requires tree_inv(this) && unlocked(this.mtx)
+//@   ensures forall r *Node :: {#hits[r]} #hits[r] >= old(#hits)[r] && #hits[r] <= old(#hits)[r] + 1
+//@   ensures forall r *Node :: {#hits[r]} #hits[r] > old(#hits)[r] ==> st_in(this.root, r) && len(r.Data) > 0
+//@   ensures #walked[this.root] >= old(#walked)[this.root] + 1
+//@   modifies #hits, #iterCalls, #walked, heap(K_sync_RWMutex)
+//@ assume-call (*tree).Iterate.iterator(b []byte)
+//@   modifies #iterCalls
+//@   ensures #iterCalls == old(#iterCalls) + 1
+//@ ghost-after (*tree).Iterate call (*Node).iterate
+//@   set #walked := update(#walked, this.root, #walked[this.root] + 1)
+
+// C19: a dump holds every entry; a load replaces the tree by one that holds exactly what the dump holds and satisfies the
+// invariant again, so it keeps accepting updates; a failed load leaves the tree as it was.
+//@ func (*tree).Dump() (out []byte, err error)
+//@   requires tree_inv(t) && unlocked(t.mtx)
+//@   ensures err == nil ==> (forall r *Node :: {r.#tree} st_in(t.root, r) ==> dv(string(out), r.#key) == string(r.Data))
+//@   ensures err == nil ==> (forall k Key :: {dv(string(out), k)} (forall r *Node :: {r.#tree} st_in(t.root, r) ==> r.#key != k) ==> dv(string(out), k) == "")
+//@   modifies newrows(bytes), heap(K_sync_RWMutex)
+//@ func (*tree).Load(buf []byte) (err error)
+//@   requires tree_inv(t) && unlocked(t.mtx)
+//@   ensures tree_inv(t)
+//@   ensures err != nil ==> t.root == old(t.root)
+//@   ensures err == nil ==> (forall r *Node :: {r.#tree} st_in(t.root, r) ==> dv(string(buf), r.#key) == string(r.Data))
+//@   ensures err == nil ==> (forall k Key :: {dv(string(buf), k)} (forall r *Node :: {r.#tree} st_in(t.root, r) ==> r.#key != k) ==> dv(string(buf), k) == "")
+//@   ensures forall r *Node :: {r.#tree} old(st_in(t.root, r)) ==> r.Data == old(r.Data) && r.#tree == old(r.#tree)
+//@   modifies t.root, newobjs(t.root), newmaps(t.root.Children), newrows(bytes), heap(K_sync_RWMutex)
